@@ -16,6 +16,8 @@ Done == s.pc = "done"
 AllOrNothing == Done /\ s.outcome = "Err" => s.gen = 0 /\ s.has
 \* C06: a successful removal removed the vertex
 Committed == Done /\ s.outcome = "Ok" => ~s.has /\ s.gen # 0
+\* C11: a call that edited the Tds at any point - also one that restored its snapshot afterwards - leaves the generation bumped
+StaleAfterTouch == Done /\ s.sites # <<>> => s.bumps > 0
 FoldAgrees == Done => RRun(cfg, RInit, hist) = s
 Terminates == <>Done
 Emit == ~(EMIT /\ Done) \/
